@@ -12,7 +12,6 @@ import (
 	"os"
 	"path/filepath"
 	"runtime"
-	"runtime/debug"
 	"strconv"
 	"strings"
 	"sync"
@@ -183,17 +182,17 @@ type world struct {
 	db      *raftlog.DB
 	hookFS  vfs.FS
 
-	mu         sync.Mutex
-	tracking   bool
-	caps       []*capture
-	capsDrop   int
+	mu          sync.Mutex
+	tracking    bool
+	caps        []*capture
+	capsDrop    int
 	capsSampled int
-	stepDone   []bool
-	fsOps      int
-	walSyncs   int
-	sstCreates int
-	chunkArmed bool
-	chunkFired bool
+	stepDone    []bool
+	fsOps       int
+	walSyncs    int
+	sstCreates  int
+	chunkArmed  bool
+	chunkFired  bool
 
 	rng      *rand.Rand
 	seen     map[uint64]bool
@@ -248,8 +247,6 @@ func tmpBase() string {
 	return os.TempDir()
 }
 
-var gcOff sync.Once
-
 func runC14(t *testing.T, r *simkit.Run) {
 	c := drawCfg(r)
 	r.Config = map[string]any{"scopes": c.Scopes, "steps": c.Steps, "short": c.Short, "nofaults": c.NoFaults, "torn": c.Torn,
@@ -266,12 +263,6 @@ func runC14(t *testing.T, r *simkit.Run) {
 	// (sstable.writeTaskPool); a channel made in one bubble must not be used in
 	// the next ("send on synctest channel from outside bubble"). Two GC cycles
 	// empty every sync.Pool (primary and victim cache).
-	gcOff.Do(func() {
-		if v := os.Getenv("RLS_GCPCT"); v != "" {
-			n, _ := strconv.Atoi(v)
-			debug.SetGCPercent(n)
-		}
-	})
 	runtime.GC()
 	runtime.GC()
 	simkit.Bubble(t, r, func() {
@@ -399,12 +390,24 @@ func (w *world) chunkWrite(path string, data []byte) error {
 		w.chunkFired = true
 	}
 	w.mu.Unlock()
-	w.capture("before chunk " + filepath.Base(path))
+	base := filepath.Base(path)
+	// crash points around the first three chunk files and every eighth one
+	idx, _ := strconv.Atoi(strings.TrimPrefix(base, "chunk-"))
+	track := idx < 3 || idx%8 == 7
+	if track {
+		w.capture("before chunk " + base)
+	}
 	if fail {
 		return errInjectedChunk
 	}
-	err := writeChunkFile(path, data, func() { w.capture("mid chunk " + filepath.Base(path)) })
-	w.capture("after chunk " + filepath.Base(path))
+	var mid func()
+	if track {
+		mid = func() { w.capture("mid chunk " + base) }
+	}
+	err := writeChunkFile(path, data, mid)
+	if track {
+		w.capture("after chunk " + base)
+	}
 	return err
 }
 
@@ -459,22 +462,39 @@ func (w *world) run() {
 		o.FS = w.hookFS
 		o.Logger = quietLogger{}
 		o.MemTableSize = w.cfg.MemTable
-		if w.cfg.MemTable < 1<<20 {
-			o.L0CompactionThreshold = 2
+		o.L0CompactionThreshold = 2
+		// cost only: one file-cache shard (one goroutine) and a small block cache per DB
+		o.Experimental.FileCacheShards = 1
+		o.CacheSize = 1 << 20
+		if _, live := w.hookFS.(*simFS); !live {
+			// clones opened only to be read and closed: no table-stats scan, and a
+			// memtable arena of at most 16 KiB (the cgo calloc/free of the arena
+			// was a fifth of the CPU; WAL replay just flushes more often)
+			o.DisableTableStats = true
+			o.MemTableSize = min(w.cfg.MemTable, 16<<10)
 		}
 	}
 	w.liveFS = vfs.NewCrashableMem()
 	w.snapDir = w.newTmpDir()
 
+	// Creating an empty DB makes the same FS calls in every run; its crash
+	// points are enumerated in one run out of eight only.
 	sp := w.currentPlan("open")
-	w.begin(sp)
+	trackOpen := tp.Intn(8) == 7
+	if trackOpen {
+		w.begin(sp)
+	}
 	db, err := w.open(w.wrapLive(), w.snapDir)
 	if err != nil {
 		r.Infra("initial open: %v", err)
 		return
 	}
 	w.db = db
-	w.verifyCaps(w.end(), sp)
+	if trackOpen {
+		w.verifyCaps(w.end(), sp)
+	} else {
+		synctest.Wait()
+	}
 	r.Logf("open scopes=%v", w.names)
 
 	for step := 1; step <= w.cfg.Steps && !r.Failed() && r.InfraErr == ""; step++ {
@@ -499,6 +519,10 @@ func (w *world) run() {
 		// final clean reopen: everything acknowledged must be there
 		w.reopenStep(w.cfg.Steps + 1)
 	}
+	w.mu.Lock()
+	r.ProbeN("pebble_flush_sst_written", w.sstCreates)
+	r.ProbeN("pebble_mutating_fs_calls", w.fsOps)
+	w.mu.Unlock()
 	r.Nontrivial = w.goodMuts >= 3 && w.hard && w.witness
 }
 
@@ -824,11 +848,13 @@ func (w *world) verifyOne(cp *capture, v variant, sp *stepPlan, force bool) []st
 	w.verifs++
 	fs := v.fs.CrashClone(vfs.CrashCloneCfg{UnsyncedDataPercent: 100, RNG: w.rng})
 	dir := w.newTmpDir()
-	if err := cp.dir.materialise(dir); err != nil {
-		r.Infra("materialise snapshot dir: %v", err)
-		return nil
+	if !cp.dir.empty() { // an absent snapshot root is what a DB without snapshots has anyway
+		if err := cp.dir.materialise(dir); err != nil {
+			r.Infra("materialise snapshot dir: %v", err)
+			return nil
+		}
+		defer os.RemoveAll(dir)
 	}
-	defer os.RemoveAll(dir)
 	db, err := w.open(fs, dir)
 	if err != nil && v.p == 50 && strings.Contains(err.Error(), "pebble") {
 		// Pebble itself refused a torn clone (e.g. a new manifest marker whose
@@ -851,6 +877,7 @@ func (w *world) verifyOne(cp *capture, v variant, sp *stepPlan, force bool) []st
 		synctest.Wait()
 	}()
 	r.Probe("crash_points_reopened")
+	r.Probe("crash_points_reopened.during_" + sp.name)
 	r.Probe(fmt.Sprintf("crash_reopen_p%d", v.p))
 	r.Fault(fmt.Sprintf("crash_clone_p%d", v.p))
 	w.witness = true
